@@ -1,0 +1,19 @@
+//go:build verif
+
+/*
+Add-only hook for the /verif check of property C14 (value-log truncation). Compiled only with
+`-tags verif`; without the tag this file does not exist for the compiler.
+*/
+
+package store
+
+// VerifValMuxLocked reports whether _valBsMux (the mutex ExportTx holds while it reads a value)
+// is held right now. It probes with TryLock and releases at once, so it never blocks and never
+// changes the state it observes.
+func (s *ImmuStore) VerifValMuxLocked() bool {
+	if s._valBsMux.TryLock() {
+		s._valBsMux.Unlock()
+		return false
+	}
+	return true
+}
